@@ -36,9 +36,58 @@ fn bases(thorough: bool) -> Vec<Base> {
     out
 }
 
+/// The crate's public masking entry point applied to an all-data grid of side n (what the crate's own mask tests do
+/// on a 10x10 grid), followed on the same thread by the forced-mask build of that version: the grid must show exactly
+/// Table 10 pattern k at every coordinate, and the build must be what R encodes (a use of the entry point on another
+/// matrix of the same size leaves nothing behind).
+pub fn check_grid(v: usize, k: usize) -> Vec<(String, String)> {
+    let mut out = vec![];
+    let n = r::side(v);
+    let res = subject::guarded(|| {
+        let mut grid = fast_qr::QRCode::default(n);
+        fast_qr::datamasking::mask(&mut grid, subject::MASKS[k]);
+        grid
+    });
+    let grid = match res {
+        Ok(g) => g,
+        Err(m) => {
+            out.push(("grid-panic".into(), format!("datamasking::mask on an all-data grid of side {} panicked: {}", n, m)));
+            return out;
+        }
+    };
+    'g: for y in 0..n {
+        for x in 0..n {
+            if grid.data[y * n + x].value() != r::maskbit(k, y, x) {
+                out.push(("grid-pattern".into(), format!("mask {} on an all-data grid of side {}: module (row {}, col {}) is {} but Table 10 condition {} is {}", k, n, y, x, grid.data[y * n + x].value(), k, r::maskbit(k, y, x))));
+                break 'g;
+            }
+        }
+    }
+    if let Some(p) = (n * n..grid.data.len()).find(|&i| grid.data[i].value()) {
+        out.push(("grid-outside".into(), format!("mask {} on an all-data grid of side {}: storage index {} beyond the square was set", k, n, p)));
+    }
+    let input = content(Family::Ctr, 2, r::cap(v, 1, 2));
+    let o = Opts { mode: Some(2), ecl: Some(1), version: Some(v as u8), mask: Some(k as u8), order: 0 };
+    match subject::build(&input, &o) {
+        Outcome::Ok(q) => {
+            if subject::values(&q) != r::encode_symbol(&input, 2, 1, v, k) {
+                out.push(("build-after-grid-use".into(), format!("v{} forced mask {}: the build that follows a use of datamasking::mask on an all-data grid of the same side differs from the reference symbol", v, k)));
+            }
+        }
+        other => out.push(("build-after-grid-use".into(), format!("v{} forced mask {}: the build that follows a use of datamasking::mask on an all-data grid returned {}", v, k, other.tag()))),
+    }
+    out
+}
+
+pub fn replay(case: &serde_json::Value) -> Result<Vec<(String, String)>, String> {
+    let v = case.get("version").and_then(|x| x.as_u64()).ok_or("version")? as usize;
+    let k = case.get("mask").and_then(|x| x.as_u64()).ok_or("mask")? as usize;
+    Ok(check_grid(v, k).into_iter().map(|(k, w)| (format!("C08/{}", k), w)).collect())
+}
+
 pub fn run(ctx: &Ctx) -> Collector {
     let col = Collector::new("C08", "exploration");
-    col.set_rule("cases = for each of the 160 (version, level) pairs and payload families {ctr, all-zero} at byte capacity (thorough: 3 families x 3 modes x 3 lengths): the 8 forced-mask builds plus the automatic-mask build; oracle at EVERY coordinate of every size: builds a and 0 differ on data/EC/remainder modules exactly where Table 10 conditions a and 0 disagree (literal formulas), all function-pattern modules (incl. version information) are identical, only format modules may differ otherwise, and un-masking each symbol with the mask NAMED IN ITS OWN FORMAT INFORMATION gives one and the same matrix for all builds (this implies all 28 pairs); non-trivial = a symbol was returned; distinct = distinct symbol matrices");
+    col.set_rule("cases = for each of the 160 (version, level) pairs and payload families {ctr, all-zero} at byte capacity (thorough: 3 families x 3 modes x 3 lengths): the 8 forced-mask builds plus the automatic-mask build; oracle at EVERY coordinate of every size: builds a and 0 differ on data/EC/remainder modules exactly where Table 10 conditions a and 0 disagree (literal formulas), all function-pattern modules (incl. version information) are identical, only format modules may differ otherwise, and un-masking each symbol with the mask NAMED IN ITS OWN FORMAT INFORMATION gives one and the same matrix for all builds (this implies all 28 pairs); plus S_grid: the public masking entry point on an all-data grid of every side x 8 masks shows Table 10 pattern k at every coordinate and the build that follows on the same thread is the reference symbol; non-trivial = a symbol was returned; distinct = distinct symbol matrices");
     col.assume("encoding region = R's computed region map (data/EC/remainder modules)");
     let bs = bases(ctx.tier.thorough());
     pool::par_for(bs.len(), |bi| {
@@ -138,6 +187,16 @@ pub fn run(ctx: &Ctx) -> Collector {
             }
         }
     });
+    // the masking entry point on all-data grids of all 40 sides x 8 masks, each followed by a build on the same thread
+    pool::par_for(40, |vi| {
+        for k in 0..8usize {
+            col.eval(Some(crate::util::fnv(format!("grid{}-{}", vi + 1, k).as_bytes())));
+            for (key, w) in check_grid(vi + 1, k) {
+                col.violation((2, (vi * 8 + k) as u64), format!("C08/{}", key), w, json!({"kind": "mask-grid", "version": vi + 1, "mask": k}));
+            }
+        }
+    });
+    col.space(json!({"name": "S_grid", "cases": 320, "what": "datamasking::mask (public entry point) on an all-data grid of each of the 40 sides x 8 masks: Table 10 pattern at every coordinate, nothing outside the square; then the forced-mask build of that version on the same thread equals the reference symbol", "exhaustive": true}));
     col.space(json!({"name": "S_mask", "cases": bs.len() * 9, "bases": bs.len(), "what": "160 (version, level) x payload bases x (8 forced masks + automatic); all coordinates of all 40 sizes compared under every mask", "exhaustive": true}));
     col.sample(json!({"space": "S_mask", "version": bs[0].v, "ecl": bs[0].e, "mode": bs[0].m, "payload": bs[0].what, "builds": "forced masks 0..7 + automatic"}));
     col.sample(json!({"space": "S_mask", "version": bs[bs.len() - 1].v, "ecl": bs[bs.len() - 1].e, "mode": bs[bs.len() - 1].m, "payload": bs[bs.len() - 1].what, "builds": "forced masks 0..7 + automatic"}));
